@@ -587,20 +587,21 @@ theorem mondayOrd_add7 (n : Nat) (h : 1 ≤ n) : mondayOrd (n + 7) = mondayOrd n
   unfold mondayOrd weekdayOrd; omega
 
 /-- A numbered week of a year (not "last"): the values are `[Monday of ISO week 1 + 7 (c − 1), + 7 days)`, i.e. ISO
-week `c` of that year (`isocalendar()` of the begin is `(year, c, 1)` whenever week `c` exists) — but the TIMEX is
-written with the ISO week number **of January 1st** (`week_of_year(first_day)`), not with `c`. -/
-theorem week_of_year_numbered_spec (R : DateTime) (y : Nat) (h1 : 1 ≤ y) (h2 : y ≤ 9999) (c : Nat) (hc : 1 ≤ c) (sw : Int)
-    (t : Str) (b e pb pe : DateTime) (h : weekOfYear R false c (some (y : Int)) sw = .ok t b e pb pe) :
+week `c` of that year (`isocalendar()` of the begin is `(year, c, 1)` whenever week `c` exists), and the TIMEX carries
+the ISO week number of the begin — hence `YYYY-Wcc` whenever week `c` exists (current code, after the fix; `fixed = false`
+gives the week number of January 1st instead). -/
+theorem week_of_year_numbered_spec_g (fx : Bool) (R : DateTime) (y : Nat) (h1 : 1 ≤ y) (h2 : y ≤ 9999) (c : Nat) (hc : 1 ≤ c) (sw : Int)
+    (t : Str) (b e pb pe : DateTime) (h : weekOfYearG fx R false c (some (y : Int)) sw = .ok t b e pb pe) :
     pb = b ∧ pe = e ∧ b.date.valid = true ∧ e.date.valid = true ∧
     b.date.ord = isoWeek1Monday y + 7 * (c - 1) ∧ e.date.ord = b.date.ord + 7 ∧
-    t = pad4 y ++ [45, 87] ++ pad2 (isoCalendar ⟨y, 1, 1⟩).2.1 ∧
+    t = pad4 y ++ [45, 87] ++ pad2 (if fx then (isoCalendar b.date).2.1 else (isoCalendar ⟨y, 1, 1⟩).2.1) ∧
     (b.date.ord < isoWeek1Monday (y + 1) → isoCalendar b.date = (y, c, 1)) := by
   have vJ := valid_jan1 y h1 h2
   have jw := jan1_week y h1 h2
   simp only at jw
   have wdl := weekdayOrd_lt (⟨y, 1, 1⟩ : Date).ord
   have mJ := mondayOrd_spec (⟨y, 1, 1⟩ : Date).ord (ord_range _ vJ).1
-  unfold weekOfYear at h
+  unfold weekOfYearG at h
   simp only [mk_valid y 1 1 vJ, Int.toNat_natCast, Bool.false_eq_true, if_false, Option.bind_eq_bind, Option.pure_def] at h
   cases h0 : this ⟨⟨y, 1, 1⟩, 0⟩ 1 with
   | none => simp [h0, ofOpt] at h
@@ -664,23 +665,47 @@ theorem week_of_year_numbered_spec (R : DateTime) (y : Nat) (h1 : 1 ≤ y) (h2 :
   rw [Prod.ext_iff, Prod.ext_iff]
   exact ⟨k.1, by rw [k.2.1, e1], by rw [k.2.2, e2]⟩
 
-/-- The TIMEX of a numbered week is right only for the FIRST week of a year whose January 1st is a Monday..Thursday. -/
+/-- **Current code**: a numbered week `c` of year `y` that exists (its Monday lies before ISO week 1 of `y + 1`) is
+emitted as `[Monday, Monday + 7)` with TIMEX `YYYY-Wcc` — exactly the ISO week the TIMEX names, for every year and `c`. -/
+theorem week_of_year_numbered_spec (R : DateTime) (y : Nat) (h1 : 1 ≤ y) (h2 : y ≤ 9999) (c : Nat) (hc : 1 ≤ c) (sw : Int)
+    (t : Str) (b e pb pe : DateTime) (h : weekOfYear R false c (some (y : Int)) sw = .ok t b e pb pe)
+    (hex : isoWeek1Monday y + 7 * (c - 1) < isoWeek1Monday (y + 1)) :
+    pb = b ∧ pe = e ∧ b.date.valid = true ∧ e.date.valid = true ∧
+    b.date.ord = isoWeek1Monday y + 7 * (c - 1) ∧ e.date.ord = b.date.ord + 7 ∧
+    isoCalendar b.date = (y, c, 1) ∧ t = pad4 y ++ [45, 87] ++ pad2 c := by
+  have s := week_of_year_numbered_spec_g true R y h1 h2 c hc sw t b e pb pe h
+  have ic := s.2.2.2.2.2.2.2 (by rw [s.2.2.2.2.1]; exact hex)
+  refine ⟨s.1, s.2.1, s.2.2.1, s.2.2.2.1, s.2.2.2.2.1, s.2.2.2.2.2.1, ic, ?_⟩
+  have := s.2.2.2.2.2.2.1
+  simp only [if_true, ic] at this
+  exact this
+
+/-- Pre-fix code: the TIMEX of a numbered week was right only for the FIRST week of a year whose January 1st is a
+Monday..Thursday. -/
 theorem week_of_year_timex_partial (y : Nat) (h1 : 1 ≤ y) (h2 : y ≤ 9999)
     (g : weekdayOrd (⟨y, 1, 1⟩ : Date).ord ≤ 3) : (isoCalendar ⟨y, 1, 1⟩).2.1 = 1 :=
   ((jan1_week y h1 h2).1 g).2
 
-/-- Negative witnesses: "the third week of next year" asked in 2020 → `2021-W53` for 2021-01-18 .. 25 (ISO 2021-W03);
+/-- Regression witnesses of the PRE-FIX code (the current code answers `2021-W03`, `2021-W01`, `2020-W03`, see
+`week_of_year_timex_fixed_instances`): "the third week of next year" asked in 2020 → `2021-W53` for 2021-01-18 .. 25 (ISO 2021-W03);
 "first week of 2021" → `2021-W53` for 2021-01-04 .. 11 (ISO 2021-W01); "third week of 2020" → `2020-W01`. -/
-theorem week_of_year_timex_fails :
-    weekOfYear ⟨⟨2020, 1, 29⟩, 0⟩ false 3 none 1 =
+theorem week_of_year_timex_prefix_regression :
+    weekOfYearPreFix ⟨⟨2020, 1, 29⟩, 0⟩ false 3 none 1 =
       .ok ("2021-W53".toList.map Char.toNat) ⟨⟨2021, 1, 18⟩, 0⟩ ⟨⟨2021, 1, 25⟩, 0⟩ ⟨⟨2021, 1, 18⟩, 0⟩ ⟨⟨2021, 1, 25⟩, 0⟩ ∧
     isoCalendar ⟨2021, 1, 18⟩ = (2021, 3, 1) ∧
-    weekOfYear ⟨⟨2020, 1, 29⟩, 0⟩ false 1 (some 2021) (-10) =
+    weekOfYearPreFix ⟨⟨2020, 1, 29⟩, 0⟩ false 1 (some 2021) (-10) =
       .ok ("2021-W53".toList.map Char.toNat) ⟨⟨2021, 1, 4⟩, 0⟩ ⟨⟨2021, 1, 11⟩, 0⟩ ⟨⟨2021, 1, 4⟩, 0⟩ ⟨⟨2021, 1, 11⟩, 0⟩ ∧
     isoCalendar ⟨2021, 1, 4⟩ = (2021, 1, 1) ∧
-    weekOfYear ⟨⟨2020, 1, 29⟩, 0⟩ false 3 (some 2020) (-10) =
+    weekOfYearPreFix ⟨⟨2020, 1, 29⟩, 0⟩ false 3 (some 2020) (-10) =
       .ok ("2020-W01".toList.map Char.toNat) ⟨⟨2020, 1, 13⟩, 0⟩ ⟨⟨2020, 1, 20⟩, 0⟩ ⟨⟨2020, 1, 13⟩, 0⟩ ⟨⟨2020, 1, 20⟩, 0⟩ := by
   refine ⟨?_, ?_, ?_, ?_, ?_⟩ <;> decide +kernel
+
+theorem week_of_year_timex_fixed_instances :
+    weekOfYear ⟨⟨2020, 1, 29⟩, 0⟩ false 3 none 1 =
+      .ok ("2021-W03".toList.map Char.toNat) ⟨⟨2021, 1, 18⟩, 0⟩ ⟨⟨2021, 1, 25⟩, 0⟩ ⟨⟨2021, 1, 18⟩, 0⟩ ⟨⟨2021, 1, 25⟩, 0⟩ ∧
+    weekOfYear ⟨⟨2020, 1, 29⟩, 0⟩ false 1 (some 2021) (-10) =
+      .ok ("2021-W01".toList.map Char.toNat) ⟨⟨2021, 1, 4⟩, 0⟩ ⟨⟨2021, 1, 11⟩, 0⟩ ⟨⟨2021, 1, 4⟩, 0⟩ ⟨⟨2021, 1, 11⟩, 0⟩ := by
+  refine ⟨?_, ?_⟩ <;> decide +kernel
 
 /-- "last week of 2015": by construction the TIMEX week number is `isocalendar()[1]` of the begin. -/
 example : weekOfYear ⟨⟨2020, 1, 29⟩, 0⟩ true 0 (some 2015) (-10) =
